@@ -19,6 +19,7 @@ type funcReport struct {
 	Abstracted map[string]int
 	Inlined    []string
 	Callees    []string
+	Locals     string
 }
 
 func main() {
@@ -107,6 +108,17 @@ func main() {
 	}
 	eng := NewEngine(*repo)
 	eng.cs = cs
+	eng.baseLocals = map[string]string{}
+	for bk, list := range loadBaseline(*baseline) {
+		if !strings.HasSuffix(bk, "#locals") {
+			continue
+		}
+		for _, e := range list {
+			if i := strings.IndexByte(e, '\t'); i > 0 {
+				eng.baseLocals[e[:i]] = e[i+1:]
+			}
+		}
+	}
 	if err := eng.Load(pats); err != nil {
 		fmt.Fprintln(os.Stderr, "load error:", err)
 		os.Exit(2)
@@ -146,6 +158,7 @@ func main() {
 			fr.Err = "contract-stale: function not found"
 			continue
 		}
+		fr.Locals = strings.Join(localSig(fn), "|")
 		res := eng.verifyFunction(fn, k, c)
 		if res.err != nil {
 			fr.Err = res.err.Error()
